@@ -5,7 +5,7 @@
    when x is submitted. *)
 From Coq Require Import ZArith NArith List Bool Lia ZifyBool ZifyN.
 From RecordUpdate Require Import RecordSet.
-From PSO Require Import Raft.Types Raft.Node Raft.Net Raft.ProofsApplyBase Raft.ProofsApply.
+From PSO Require Import Raft.Types Raft.Node Raft.Net Raft.Obs Raft.ProofsApplyBase Raft.ProofsApply.
 Import ListNotations.
 Import RecordSetNotations.
 Open Scope N_scope.
@@ -589,4 +589,249 @@ Proof.
     { unfold s2. destruct success; auto. destruct (aget from (match_idx (nd s1))); auto.
       destruct (n0 <? next - 1); auto. }
     destruct (ok s2); apply K; auto.
+Qed.
+
+(* ---- the remaining events of a node ---- *)
+Lemma api_ids : forall (api : env -> cmd -> cbref -> node -> S) e c cbk n,
+  (api = api_submit \/ api = api_admin \/ api = api_setver) ->
+  asorted None (wait_commit n) ->
+  asorted None (wait_commit (nd (api e c cbk n))) /\
+  forall x, (total x (api e c cbk n) <= cnt x (node_ids n) + cnt x (cb_id cbk))%nat.
+Proof.
+  intros api e c cbk n H W.
+  assert (SB : asorted None (wait_commit (nd (submit e c cbk (start_S e n)))) /\
+               forall x, (total x (submit e c cbk (start_S e n)) <= cnt x (node_ids n) + cnt x (cb_id cbk))%nat).
+  { destruct (step_submit e c cbk (start_S e n)) as [A B]. split. - apply A, W.
+    - intros x. rewrite B, total_start. lia. }
+  assert (RS : asorted None (wait_commit (nd (raise EXC_GENERIC (start_S e n)))) /\
+               forall x, (total x (raise EXC_GENERIC (start_S e n)) <= cnt x (node_ids n) + cnt x (cb_id cbk))%nat).
+  { split; [exact W|]. intros x. change (total x (raise EXC_GENERIC (start_S e n))) with (total x (start_S e n)).
+    rewrite total_start. lia. }
+  destruct H as [->|[->| ->]].
+  - exact SB.
+  - unfold api_admin. destruct (dyn (cf e)); auto.
+  - unfold api_setver. destruct ((self_ver n <? ca c) || (ca c <? enabled_ver n)); auto.
+Qed.
+
+Lemma node_ids_connected : forall x n, node_ids (on_connected x n) = node_ids n /\
+  wait_commit (on_connected x n) = wait_commit n.
+Proof. intros. unfold on_connected. destruct (RO_BASE <=? x); split; reflexivity. Qed.
+
+Lemma node_ids_disconnected : forall x n, node_ids (on_disconnected x n) = node_ids n /\
+  wait_commit (on_disconnected x n) = wait_commit n.
+Proof. intros. unfold on_disconnected. destruct (RO_BASE <=? x); split; reflexivity. Qed.
+
+Lemma total_idle : forall x n, total x (idle_S n) = cnt x (node_ids n).
+Proof. intros. unfold total, idle_S. cbn [nd outs]. change (fired_ids []) with (@nil N). rewrite cnt_nil. lia. Qed.
+
+(* ------------------------------------------------------------------ *)
+(* the cluster                                                          *)
+(* ------------------------------------------------------------------ *)
+
+(* callback ids submitted by an event (0 = no callback) *)
+Definition ev_ids (ev : event) : list N :=
+  match ev with
+  | ESubmit _ _ cb | EAdmin _ _ cb | ESetVer _ _ cb => cb_id (cb_of cb)
+  | _ => []
+  end.
+
+Definition out_ids (o : option (nid * S)) : list N :=
+  match o with Some (_, s) => fired_ids (outs s) | None => [] end.
+
+(* every callback id fired during a run, in order *)
+Fixpoint run_fired (c : conf) (g : gstate) (evs : list event) : option (gstate * list N) :=
+  match evs with
+  | [] => Some (g, [])
+  | ev :: r =>
+    match gstep c g ev with
+    | None => None
+    | Some (g', o) =>
+      match run_fired c g' r with
+      | None => None
+      | Some (g'', f) => Some (g'', out_ids o ++ f)
+      end
+    end
+  end.
+
+Lemma run_fired_trace : forall c evs g,
+  run_trace c g evs = option_map fst (run_fired c g evs).
+Proof.
+  induction evs as [|ev r IH]; intros g; cbn; auto.
+  destruct (gstep c g ev) as [[g' o]|]; auto. rewrite IH.
+  destruct (run_fired c g' r) as [[g'' f]|]; auto.
+Qed.
+
+Definition g_ids (g : gstate) : list N := flat_map (fun kv : N * node => node_ids (snd kv)) (nodes g).
+
+Definition G_inv (g : gstate) : Prop :=
+  asorted None (nodes g) /\ forall n x, aget n (nodes g) = Some x -> asorted None (wait_commit x).
+
+Lemma nodes_route : forall a os g, nodes (route a os g) = nodes g.
+Proof.
+  intros a os. induction os as [|o os IH]; intros g; cbn [route fold_left]; auto.
+  unfold route in IH. rewrite IH. destruct o; reflexivity.
+Qed.
+
+Lemma G_inv_nodes : forall g g', nodes g' = nodes g -> G_inv g -> G_inv g'.
+Proof. unfold G_inv. intros g g' H. now rewrite H. Qed.
+
+Lemma g_ids_nodes : forall g g', nodes g' = nodes g -> g_ids g' = g_ids g.
+Proof. unfold g_ids. intros g g' H. now rewrite H. Qed.
+
+Lemma node_update : forall g g1 n x0 s extra,
+  G_inv g -> nodes g1 = nodes g -> aget n (nodes g) = Some x0 ->
+  asorted None (wait_commit (nd s)) ->
+  (forall x, (total x s <= cnt x (node_ids x0) + cnt x extra)%nat) ->
+  G_inv (finish n s g1) /\
+  forall x, (cnt x (g_ids (finish n s g1)) + cnt x (fired_ids (outs s)) <= cnt x (g_ids g) + cnt x extra)%nat.
+Proof.
+  intros g g1 n x0 s extra [SO WC] NG GET W T.
+  assert (NF : nodes (finish n s g1) = aset n (nd s) (nodes g)).
+  { unfold finish. rewrite nodes_route. unfold put_node. cbn. now rewrite NG. }
+  split.
+  - unfold G_inv. rewrite NF. split. + now apply asorted_aset.
+    + intros m x. destruct (N.eq_dec m n) as [->|NE].
+      * rewrite aget_aset_same. intros E. injection E as <-. exact W.
+      * rewrite aget_aset_other by auto. apply WC.
+  - intros x. unfold g_ids. rewrite NF.
+    pose proof (cnt_aset node_ids x n (nd s) (nodes g) None SO) as A. rewrite GET in A. cbn [oget] in A.
+    specialize (T x). unfold total in T. lia.
+Qed.
+
+Lemma gstep_ids : forall c g ev g' o,
+  G_inv g -> gstep c g ev = Some (g', o) ->
+  G_inv g' /\ forall x, (cnt x (g_ids g') + cnt x (out_ids o) <= cnt x (g_ids g) + cnt x (ev_ids ev))%nat.
+Proof.
+  intros c g ev g' o GI ST. pose proof GI as [SO WC].
+  destruct ev as [n now rnd bud ord sl|a b now rnd ord|a b|a b k|a b|n cm cb|n cm cb|n cm cb|n|n|n oth now rnd sv];
+    cbn [gstep] in ST.
+  - (* ETick *)
+    destruct (aget n (nodes g)) as [x0|] eqn:G; [|discriminate]. injection ST as <- <-.
+    destruct (on_tick_ids (mk_env c now rnd bud ord sl) x0 (WC _ _ G)) as [A B].
+    cbn [out_ids ev_ids]. apply (node_update g g n x0 _ []); auto.
+    intros x. rewrite cnt_nil. specialize (B x). lia.
+  - (* EDeliver *)
+    destruct (aget b (nodes g)) as [x0|] eqn:G; [|discriminate].
+    destruct (chan_get a b g) as [|m rest]; [discriminate|]. injection ST as <- <-.
+    destruct (on_message_ids (mk_env c now rnd DEFAULT_BUDGET ord 0) a m x0 (WC _ _ G)) as [A B].
+    cbn [out_ids ev_ids]. apply (node_update g _ b x0 _ []); auto.
+    intros x. rewrite cnt_nil. specialize (B x). lia.
+  - (* EDrop *)
+    destruct (aget a (nodes g)) as [x0|] eqn:G; [|discriminate]. injection ST as <- <-.
+    destruct (node_ids_disconnected b x0) as [A B].
+    assert (H1 : asorted None (wait_commit (nd (idle_S (on_disconnected b x0))))) by (cbn; rewrite B; eauto).
+    assert (H2 : forall x, (total x (idle_S (on_disconnected b x0)) <= cnt x (node_ids x0) + cnt x [])%nat)
+      by (intros x; rewrite total_idle, A, cnt_nil; lia).
+    destruct (node_update g g a x0 _ [] GI eq_refl G H1 H2) as [P Q].
+    split.
+    + eapply G_inv_nodes; [|exact P]. reflexivity.
+    + intros x. cbn [out_ids ev_ids].
+      match goal with |- (cnt x (g_ids ?G) + _ <= _)%nat => rewrite (g_ids_nodes (finish a (idle_S (on_disconnected b x0)) g) G eq_refl) end.
+      apply Q.
+  - (* ELose *)
+    injection ST as <- <-. split. + eapply G_inv_nodes; [|exact GI]. reflexivity.
+    + intros x. cbn [out_ids ev_ids].
+      match goal with |- (cnt x (g_ids ?G) + _ <= _)%nat => rewrite (g_ids_nodes g G eq_refl) end. lia.
+  - (* EConnect *)
+    destruct (aget a (nodes g)) as [x0|] eqn:G; [|discriminate]. injection ST as <- <-.
+    destruct (node_ids_connected b x0) as [A B].
+    cbn [out_ids ev_ids].
+    assert (H1 : asorted None (wait_commit (nd (idle_S (on_connected b x0))))) by (cbn; rewrite B; eauto).
+    assert (H2 : forall x, (total x (idle_S (on_connected b x0)) <= cnt x (node_ids x0) + cnt x [])%nat)
+      by (intros x; rewrite total_idle, A, cnt_nil; lia).
+    apply (node_update g _ a x0 _ [] GI); auto.
+    destruct (match aget b (nodes g) with Some y => negb (smem a (tconn y)) | None => true end); reflexivity.
+  - (* ESubmit *)
+    destruct (aget n (nodes g)) as [x0|] eqn:G; [|discriminate]. injection ST as <- <-.
+    destruct (api_ids api_submit (mk_env c 0 0 DEFAULT_BUDGET [] 0) cm (cb_of cb) x0 (or_introl eq_refl) (WC _ _ G)) as [A B].
+    cbn [out_ids ev_ids]. apply (node_update g g n x0 _ (cb_id (cb_of cb))); auto.
+  - (* EAdmin *)
+    destruct (aget n (nodes g)) as [x0|] eqn:G; [|discriminate]. injection ST as <- <-.
+    destruct (api_ids api_admin (mk_env c 0 0 DEFAULT_BUDGET [] 0) cm (cb_of cb) x0 (or_intror (or_introl eq_refl)) (WC _ _ G)) as [A B].
+    cbn [out_ids ev_ids]. apply (node_update g g n x0 _ (cb_id (cb_of cb))); auto.
+  - (* ESetVer *)
+    destruct (aget n (nodes g)) as [x0|] eqn:G; [|discriminate]. injection ST as <- <-.
+    destruct (api_ids api_setver (mk_env c 0 0 DEFAULT_BUDGET [] 0) cm (cb_of cb) x0 (or_intror (or_intror eq_refl)) (WC _ _ G)) as [A B].
+    cbn [out_ids ev_ids]. apply (node_update g g n x0 _ (cb_id (cb_of cb))); auto.
+  - (* ECompact *)
+    destruct (aget n (nodes g)) as [x0|] eqn:G; [|discriminate]. injection ST as <- <-.
+    assert (H1 : asorted None (wait_commit (nd (idle_S (api_compact x0))))) by (cbn; eauto).
+    assert (H2 : forall x, (total x (idle_S (api_compact x0)) <= cnt x (node_ids x0) + cnt x [])%nat)
+      by (intros x; rewrite total_idle, cnt_nil; unfold api_compact, node_ids; cbn; lia).
+    cbn [out_ids ev_ids]. apply (node_update g g n x0 _ [] GI); auto.
+  - (* EKill: the node and everything it held are gone *)
+    injection ST as <- <-.
+    assert (NG : forall g0, nodes g0 = nodes g ->
+                 nodes (g0 <| nodes := adel n (nodes g0) |>
+                           <| chan := filter (fun c => negb ((fst (fst c) =? n) || (snd (fst c) =? n))) (chan g0) |>)
+                 = adel n (nodes g)) by (intros g0 H; cbn; now rewrite H).
+    match goal with |- G_inv ?G /\ _ => assert (NN : nodes G = adel n (nodes g)) end.
+    { apply NG. destruct (aget n (nodes g)) as [x0|]; auto. destruct (disk_of c x0); reflexivity. }
+    split.
+    + unfold G_inv. rewrite NN. split. * now apply asorted_adel.
+      * intros m x. destruct (N.eq_dec m n) as [->|NE].
+        -- rewrite (aget_adel_same _ None) by auto. discriminate.
+        -- rewrite aget_adel_other by auto. apply WC.
+    + intros x. cbn [out_ids ev_ids]. unfold g_ids. rewrite NN.
+      pose proof (cnt_adel node_ids x n (nodes g)). lia.
+  - (* ERestart: a fresh object holds no callback *)
+    injection ST as <- <-.
+    match goal with |- context [put_node n ?X ?G] => set (x1 := X); set (g1 := G) end.
+    assert (E1 : node_ids x1 = [] /\ wait_commit x1 = []).
+    { unfold x1. destruct (aget n (disks g)) as [d|]; [destruct (if RO_BASE <=? n then None else Some n)|]; auto.
+      unfold init_from_disk. destruct (d_log d); split; reflexivity. }
+    destruct E1 as [E1 E2].
+    assert (NN : nodes (put_node n x1 g1) = aset n x1 (nodes g)) by reflexivity.
+    split.
+    + unfold G_inv. rewrite NN. split. * now apply asorted_aset.
+      * intros m x. destruct (N.eq_dec m n) as [->|NE].
+        -- rewrite aget_aset_same. intros E. injection E as <-. rewrite E2. exact I.
+        -- rewrite aget_aset_other by auto. apply WC.
+    + intros x. cbn [out_ids ev_ids idle_S outs]. change (fired_ids []) with (@nil N). unfold g_ids. rewrite NN.
+      pose proof (cnt_aset node_ids x n x1 (nodes g) None SO) as A. rewrite E1, !cnt_nil in *. lia.
+Qed.
+
+Lemma G_inv_init : G_inv ginit.
+Proof. split. - exact I. - intros n x H. discriminate. Qed.
+
+Theorem run_ids : forall c evs g g' f,
+  G_inv g -> run_fired c g evs = Some (g', f) ->
+  G_inv g' /\ forall x, (cnt x (g_ids g') + cnt x f <= cnt x (g_ids g) + cnt x (flat_map ev_ids evs))%nat.
+Proof.
+  induction evs as [|ev r IH]; intros g g' f GI R; cbn [run_fired flat_map] in *.
+  - injection R as <- <-. split; auto.
+  - destruct (gstep c g ev) as [[g1 o]|] eqn:ST; [|discriminate].
+    destruct (run_fired c g1 r) as [[g2 f2]|] eqn:R2; [|discriminate]. injection R as <- <-.
+    destruct (gstep_ids _ _ _ _ _ GI ST) as [GI1 L1].
+    destruct (IH _ _ _ GI1 R2) as [GI2 L2]. split; auto.
+    intros x. rewrite !cnt_app. specialize (L1 x). specialize (L2 x). lia.
+Qed.
+
+(* C02_at_most_once: with pairwise distinct callback ids every id is fired at most once in the
+   whole run, whatever the schedule: leader changes, forwarding, retries, kills and restarts
+   (a killed node forgets its ids: they never fire). *)
+Theorem at_most_once : forall (c : conf) (evs : list event) (g' : gstate) (f : list N),
+  NoDup (flat_map ev_ids evs) ->
+  run_fired c ginit evs = Some (g', f) ->
+  NoDup f.
+Proof.
+  intros c evs g' f ND R.
+  destruct (run_ids c evs ginit g' f G_inv_init R) as [_ L].
+  apply (NoDup_count_occ N.eq_dec). intros x. specialize (L x).
+  rewrite (NoDup_count_occ N.eq_dec) in ND. specialize (ND x).
+  unfold cnt, g_ids in *. cbn in L. lia.
+Qed.
+
+(* the same from any state whose tables hold distinct ids not used by later submissions *)
+Theorem at_most_once_from : forall (c : conf) (evs : list event) (g g' : gstate) (f : list N),
+  G_inv g ->
+  NoDup (g_ids g ++ flat_map ev_ids evs) ->
+  run_fired c g evs = Some (g', f) ->
+  NoDup f /\ NoDup (g_ids g' ++ f).
+Proof.
+  intros c evs g g' f GI ND R.
+  destruct (run_ids c evs g g' f GI R) as [_ L].
+  rewrite (NoDup_count_occ N.eq_dec) in ND.
+  split; apply (NoDup_count_occ N.eq_dec); intros x; specialize (L x); specialize (ND x);
+    unfold cnt in *; rewrite ?count_occ_app in *; lia.
 Qed.
